@@ -1,5 +1,5 @@
 ENGINE = {'name': 'e2e',
- 'pkg': '.',  # injected into the root package caddyl4 (imports every module); vlib/core.make_overlay cannot inject into the test-only package integration
+ 'pkg': 'integration',
  'files': ['integration/c01_e2e_test.go'],
  'run': '^TestVerifC01E2E$',
  'n_quick': 300,
